@@ -66,6 +66,9 @@ func (c wkClass) pod(i int) world.PodSpec {
 		return world.PodSpec{Name: fmt.Sprintf("d-r1-%c", 'x'+rune(i)), NS: "ns", OwnerKind: "ReplicaSet", OwnerName: "d-r1", Policy: c.Policy, Pool: "pl"}
 	case "bare":
 		return world.PodSpec{Name: fmt.Sprintf("b-%d", i), NS: "ns", Policy: c.Policy}
+	case "stspool":
+		// statefulset pods that use a named IP pool (the pool annotation means policy never; the IP stays with the pod's identity)
+		return world.PodSpec{Name: fmt.Sprintf("a-%d", i), NS: "ns", OwnerKind: "StatefulSet", OwnerName: "a", Policy: c.Policy, Pool: "pl"}
 	case "ststwin":
 		// two statefulsets with the same name in two namespaces: pod 0 is ns/a-1, pod 1 is ns2/a-1
 		ns := "ns"
@@ -90,7 +93,7 @@ func (c wkClass) setWorkload(w *world.World, replicas int) {
 		// scale / delete-app act on ns/a; its namesake ns2/a keeps two replicas
 		w.SetStatefulSet("ns", "a", replicas)
 		w.SetStatefulSet("ns2", "a", 2)
-	case "sts", "stsmulti":
+	case "sts", "stsmulti", "stspool":
 		w.SetStatefulSet("ns", "a", replicas)
 	case "dp", "dppool":
 		w.SetDeployment("ns", "d", replicas)
